@@ -1,19 +1,138 @@
-(* C03 — bigWig range queries: exactly the overlapping values, clipped, in order; history
-   independent.  Statements only, each closed by [exact]. *)
-From BT Require Import Base.Util Base.LE Base.Float Generated.Consts Model.RTree Model.BBIFile Model.BigWigWrite
-  Model.BBIRead Model.CachedRead Proofs.Chunks Proofs.BigWigQuery Proofs.CachedReadInv.
+(* C03 — bigWig range queries: exactly the overlapping values, clipped, in order; the per-base
+   array agrees; history independent.  Statements only, each closed by [exact].
+
+   Levels:  (a) one block: bytes of encode_section -> get_block_values  (C03_section_codec, C03_block_decode)
+            (b) image: data sections + the index bytes of write_index over exactly those sections,
+                anywhere in an image, for every block store (identity or a round-tripping compressor)
+                -> bw_interval = clip_filter  (C03_query_image; uses C05_search_bytes_eq_scan)
+            (c) the files bw_write / bw_write_multipass produce (header, chromosome tree, data, index:
+                C01's whole-file round trip, Proofs/BigWigFileThms.v) -> C03_query, C03_values
+            (d) shape of answers (C03_sorted_clipped), per-base array (C03_values_array)
+            (e) the caching reader as a state machine: C03_step, C03_history, C03_history_written. *)
+From BT Require Import Base.Util Base.Sexp Base.LE Base.Float Generated.Consts Model.RTree Model.BBIFile Model.BigWigWrite
+  Model.BBIRead Model.CachedRead Model.Entry_C03 Proofs.Chunks Proofs.BigWigQuery Proofs.RTreeCodec Proofs.CachedReadInv
+  Proofs.BigWigSection Proofs.C03Image Proofs.BigWigValues Proofs.BigWigFileRoundTrip Proofs.BigWigFileThms Proofs.C03Written.
+From Coq Require Import Sorting.Sorted.
 Local Open Scope N_scope.
 
-(* ---- history independence (for every decompressor, every byte image, every header) ---- *)
+(* ---- (a) one block ---- *)
+(* item codec round trip: the 12-byte little-endian items of a section parse back to the items
+   (start, end, f32 bit pattern all < 2^32), whatever follows them *)
+Theorem C03_section_codec : forall l rest, Forall BigWigSection.value_ok l ->
+  parse_type1 false (length l) (flat_map value_bytes l ++ rest) = l.
+Proof. exact parse_type1_ok. Qed.
+Print Assumptions C03_section_codec.
 
+(* get_block_values on the bytes of an encoded section: the section's items filtered by strict
+   overlap with [s,e) and clipped, or "other chromosome" *)
+Theorem C03_block_decode : forall i cid st en items chrom s e,
+  h_big (i_hdr i) = false -> cid < U32 -> st < U32 -> Nlen items < U16 -> Forall BigWigSection.value_ok items ->
+  block_values_of i (section_header cid st en (Nlen items) ++ flat_map value_bytes items) chrom s e
+  = Ok (if cid =? chrom then Some (clip_filter s e items) else None).
+Proof. exact section_roundtrip. Qed.
+Print Assumptions C03_block_decode.
+
+(* ---- (b) any image holding the writer's sections and their index ---- *)
+Theorem C03_query_image : forall (infl store : list N -> list N) (b ips : N) (outs : list chrom_out)
+    (pre mid post ix : list N) (lv : nat) (i : info) (c : chrom_out) (cn : name) (s e : N),
+  let abs := file_ablocks (N.to_nat ips) outs in
+  let data := map (ab_sdata store) abs in
+  let ixpos := Nlen (pre ++ data_bytes data ++ mid) in
+  let bs := pre ++ data_bytes data ++ mid ++ ix ++ post in
+  write_index b ips ixpos (place (Nlen pre) data) = Ok (ix, lv) ->
+  Nlen bs < U64 ->
+  h_big (i_hdr i) = false ->
+  (forall x, (if 0 <? h_ubuf (i_hdr i) then infl (store x) else store x) = x) ->
+  h_full_index_off (i_hdr i) = ixpos ->
+  chrom_id i cn = Ok (co_id c) ->
+  2 <= b <= 65535 -> 0 < ips < U16 ->
+  ids_increasing outs -> Forall (out_ok ips) outs ->
+  In c outs -> co_vals c <> [] ->
+  bw_interval infl bs i cn s e = Ok (clip_filter s e (co_vals c)).
+Proof. exact interval_on_image. Qed.
+Print Assumptions C03_query_image.
+
+(* ---- (c) the files the writer models produce ---- *)
+(* for every accepted input and option set, both pass modes: the written bytes open, and for every
+   chromosome run (c, vs) of the input and EVERY s, e (no side condition) the interval query returns
+   map (clip s e) (filter (fun v => s <? v.end && v.start <? e) vs), for every decompressor *)
+Theorem C03_query : forall fp o sizes inp bs,
+  bw_write fp o sizes inp = Ok bs \/ bw_write_multipass fp o sizes inp = Ok bs ->
+  opts_ok o -> input_ok sizes inp -> Nlen bs < U64 ->
+  exists i, read_info bs = Ok i /\
+    forall infl c vs s e, In (c, vs) (runs inp) -> bw_interval infl bs i c s e = Ok (clip_filter s e vs).
+Proof. exact written_interval. Qed.
+Print Assumptions C03_query.
+
+(* ... and values(c, s, e), s <= e, is the array of length e-s that has at offset j the value of
+   the stored item covering base s+j, None (NaN) where none does *)
+Theorem C03_values : forall fp o sizes inp bs,
+  bw_write fp o sizes inp = Ok bs \/ bw_write_multipass fp o sizes inp = Ok bs ->
+  opts_ok o -> input_ok sizes inp -> Nlen bs < U64 ->
+  exists i, read_info bs = Ok i /\
+    forall infl c vs s e, In (c, vs) (runs inp) -> s <= e -> bw_values infl bs i c s e = Ok (spec_values s e vs).
+Proof. exact written_values. Qed.
+Print Assumptions C03_values.
+
+(* ---- (d) shape of an answer; the array ---- *)
+(* the answer is ascending and pairwise disjoint, every item lies inside [s,e] with start <= end,
+   is non-empty when the range is non-empty and no stored value is empty, and is the clip of a
+   stored value that overlaps the range *)
+Theorem C03_sorted_clipped : forall len s e vals, wf_vals len vals -> s <= e ->
+  let ans := clip_filter s e vals in
+  StronglySorted before ans
+  /\ Forall (fun a => s <= v_start a /\ v_start a <= v_end a /\ v_end a <= e) ans
+  /\ (s < e -> Forall (fun v => v_start v < v_end v) vals -> Forall (fun a => v_start a < v_end a) ans)
+  /\ Forall (fun a => exists v, In v vals /\ keep s e v = true /\ a = clip s e v) ans.
+Proof. exact answer_shape. Qed.
+Print Assumptions C03_sorted_clipped.
+
+(* values()'s fill of the clipped answer = the per-base specification, read pointwise below *)
+Theorem C03_values_array : forall len s e vals, wf_vals len vals -> s <= e ->
+  fill_values s e (clip_filter s e vals) = spec_values s e vals.
+Proof. exact values_spec. Qed.
+Print Assumptions C03_values_array.
+
+Theorem C03_values_pointwise : forall s e vals j, (j < N.to_nat (e - s))%nat ->
+  nth_error (spec_values s e vals) j
+  = Some (match find (cover (s + N.of_nat j)) vals with Some v => Some (v_bits v) | None => None end).
+Proof. exact spec_values_nth. Qed.
+Print Assumptions C03_values_pointwise.
+
+(* the covering item is unique *)
+Theorem C03_cover_unique : forall len vals p v w, wf_vals len vals -> In v vals -> In w vals ->
+  cover p v = true -> cover p w = true -> v = w.
+Proof. exact cover_unique. Qed.
+Print Assumptions C03_cover_unique.
+
+(* ---- (e) history independence (for every decompressor, every byte image, every header) ---- *)
 (* one step of the caching reader — interval, per-base or zoom query — from a cache in which every
    entry equals a fresh read of its key: the answer is the stateless reader's answer and the new
-   cache (after an insertion, or after the reset at CACHE_LIMIT entries plus an insertion) is
-   again such a cache *)
+   cache (after insertions, or after the reset at CACHE_LIMIT entries plus an insertion) is again
+   such a cache *)
 Theorem C03_step : forall infl bs i c q, cache_ok infl bs i c ->
   fst (qstep infl bs i c q) = fresh_answer infl bs i q /\ cache_ok infl bs i (snd (qstep infl bs i c q)).
 Proof. exact qstep_spec. Qed.
 Print Assumptions C03_step.
+
+(* the block read that may clear the map: same bytes as a fresh read, invariant kept *)
+Theorem C03_block_read_reset : forall infl bs i c b, cache_ok infl bs i c ->
+  fst (c_block_data infl i bs c b) = block_data infl i bs b /\ cache_ok infl bs i (snd (c_block_data infl i bs c b)).
+Proof. exact c_block_data_spec. Qed.
+Print Assumptions C03_block_read_reset.
+
+(* ... after any history, and after reopening and any second history, neither map holds a key
+   twice and the block map holds at most CACHE_LIMIT blocks (so the association lists of the model
+   have the HashMaps' content and length); re-checked against the limit in Generated/Consts.v *)
+Theorem C03_cache_bounded : forall infl bs i qs1 qs2,
+  cache_small (snd (qrun infl bs i cache0 qs1))
+  /\ cache_small (snd (qrun infl bs i (c_reopen (snd (qrun infl bs i cache0 qs1))) qs2)).
+Proof. intros infl bs i. exact (reachable_small infl bs i eq_refl). Qed.
+Print Assumptions C03_cache_bounded.
+
+Theorem C03_reopen : forall infl bs i c, cache_ok infl bs i c -> cache_ok infl bs i (c_reopen c).
+Proof. exact reopen_ok. Qed.
+Print Assumptions C03_reopen.
 
 (* every finite query sequence against one caching reader, and every second sequence against a
    reader reopened from it afterwards: each answer is the stateless answer *)
@@ -22,3 +141,78 @@ Theorem C03_history : forall infl bs i qs1 qs2,
   /\ fst (qrun infl bs i (c_reopen (snd (qrun infl bs i cache0 qs1))) qs2) = map (fresh_answer infl bs i) qs2.
 Proof. exact history_independent. Qed.
 Print Assumptions C03_history.
+
+(* on a written file: whatever was asked before, through the caching reader or a reopened one, an
+   interval / per-base query on a chromosome of the file is answered by the specification *)
+Theorem C03_history_written : forall fp o sizes inp bs,
+  bw_write fp o sizes inp = Ok bs \/ bw_write_multipass fp o sizes inp = Ok bs ->
+  opts_ok o -> input_ok sizes inp -> Nlen bs < U64 ->
+  exists i, read_info bs = Ok i /\
+  forall infl,
+    (forall qs1 qs2,
+        fst (qrun infl bs i cache0 qs1) = map (fresh_answer infl bs i) qs1
+        /\ fst (qrun infl bs i (c_reopen (snd (qrun infl bs i cache0 qs1))) qs2) = map (fresh_answer infl bs i) qs2)
+    /\ (forall c vs s e, In (c, vs) (runs inp) ->
+          fresh_answer infl bs i (QInterval c s e) = AInterval (Ok (clip_filter s e vs))
+          /\ (s <= e -> fresh_answer infl bs i (QValues c s e) = AValues (Ok (spec_values s e vs)))).
+Proof. exact written_history. Qed.
+Print Assumptions C03_history_written.
+
+(* ---- non-vacuity: a two-chromosome file with three data blocks (items_per_slot = 2) ---- *)
+Definition ex_opts : opts :=
+  {| o_compress := false; o_ips := 2; o_bs := 2; o_izoom := 160; o_maxzooms := 10; o_manual := Some []; o_sort_all := true |}.
+Definition ex_a : name := [97].
+Definition ex_b : name := [98].
+Definition ex_sizes : list (name * N) := [(ex_b, 50); (ex_a, 40)].
+Definition ex_v (s e b : N) : value := {| v_start := s; v_end := e; v_bits := b |}.
+Definition ex_inp : list item :=
+  [(ex_a, ex_v 2 10 1065353216); (ex_a, ex_v 10 12 1073741824); (ex_a, ex_v 20 30 1077936128); (ex_b, ex_v 0 5 1082130432)].
+
+Example C03_example_hyps :
+  opts_ok ex_opts /\ input_ok ex_sizes ex_inp
+  /\ runs ex_inp = [(ex_a, [ex_v 2 10 1065353216; ex_v 10 12 1073741824; ex_v 20 30 1077936128]); (ex_b, [ex_v 0 5 1082130432])]
+  /\ exists bs, bw_write ieee ex_opts ex_sizes ex_inp = Ok bs /\ Nlen bs < U64 /\ Nlen bs = 734.
+Proof.
+  split; [unfold opts_ok; cbn; lia|]. split.
+  - unfold input_ok. split; [cbn; repeat constructor; cbn; intuition discriminate|].
+    split; [repeat constructor; cbn; try lia; repeat constructor; discriminate|].
+    split; [vm_compute; reflexivity|]. split; repeat constructor; cbn; unfold U32; lia.
+  - split; [reflexivity|]. eexists. split; [vm_compute; reflexivity|]. split; vm_compute; reflexivity.
+Qed.
+
+Definition idf (l : list N) : list N := l.
+
+(* the reader model run on those bytes: a range inside one value; a range ending exactly on the
+   boundary between the first and the second block; an empty range; the per-base array; and the
+   same four through one caching reader, then through a reopened one in reverse order *)
+Example C03_example_run :
+  match bw_write ieee ex_opts ex_sizes ex_inp with
+  | Ok bs =>
+      match read_info bs with
+      | Ok i =>
+          bw_interval idf bs i ex_a 4 6 = Ok [ex_v 4 6 1065353216]
+          /\ bw_interval idf bs i ex_a 0 12 = Ok [ex_v 2 10 1065353216; ex_v 10 12 1073741824]
+          /\ bw_interval idf bs i ex_a 9 21 = Ok [ex_v 9 10 1065353216; ex_v 10 12 1073741824; ex_v 20 21 1077936128]
+          /\ bw_interval idf bs i ex_a 15 15 = Ok []
+          /\ bw_values idf bs i ex_a 8 14 = Ok [Some 1065353216; Some 1065353216; Some 1073741824; Some 1073741824; None; None]
+          /\ let qs := [QInterval ex_a 4 6; QValues ex_a 8 14; QInterval ex_a 9 21; QInterval ex_b 0 50; QInterval ex_a 4 6] in
+             let '(a1, c1) := qrun idf bs i cache0 qs in
+             a1 = map (fresh_answer idf bs i) qs
+             /\ length (c_blocks c1) = 3%nat /\ length (c_nodes c1) = 3%nat
+             /\ fst (qrun idf bs i (c_reopen c1) (rev qs)) = map (fresh_answer idf bs i) (rev qs)
+      | _ => False
+      end
+  | _ => False
+  end.
+Proof. vm_compute. repeat split; reflexivity. Qed.
+
+(* the reset branch itself, on a cache that is full: the block comes from the file, the map is
+   cleared and holds exactly the new block (CACHE_LIMIT entries of a dummy block fill the map) *)
+Example C03_example_reset :
+  let full := {| c_nodes := []; c_blocks := repeatN ((7, 7), []) (N.to_nat CACHE_LIMIT) |} in
+  let img := [1; 2; 3; 4; 5] in
+  let i := {| i_hdr := {| h_big := false; h_bigwig := true; h_version := 4; h_zoom_levels := 0; h_chrom_tree_off := 0;
+                          h_full_data_off := 0; h_full_index_off := 0; h_field_count := 0; h_defined_fc := 0;
+                          h_asql_off := 0; h_summary_off := 0; h_ubuf := 0 |}; i_zooms := []; i_chroms := [] |} in
+  c_block_data idf i img full (1, 3) = (Ok [2; 3; 4], {| c_nodes := []; c_blocks := [((1, 3), [2; 3; 4])] |}).
+Proof. vm_compute. reflexivity. Qed.
